@@ -32,7 +32,7 @@ for p in props:
             'evidence_file': 'evidence/%s.json' % pid,
             'replay_cmd_template': './check %s --replay {path}' % pid,
             'engine': 'lean4+correspondence',
-            'level_claimed': {'category': 'proof', 'text': c['text'], 'design_ref': 'DESIGN.md §4 ' + pid},
+            'level_claimed': {'category': 'proof', 'text': c['text'], 'design_ref': 'DESIGN.md Part II, section II.' + pid},
             'level_note': c.get('note', NOTE),
             'technique': c['technique'],
         })
@@ -41,12 +41,12 @@ for p in props:
 m = {
     'version': 1,
     'setup_cmd': 'cd lean && lake build',
-    'hooks': {'guard': 'BCTPY_VERIF', 'enable': 'checks set BCTPY_VERIF=1 in the environment before importing bct from /repo (editable install, current working tree)',
+    'hooks': {'guard': 'BCTPY_VERIF', 'enable': 'no hook exists in /repo: no source line reads the variable, which is reserved (the harness sets BCTPY_VERIF=1 before importing bct from the current working tree of /repo); all /repo commits of this work are unguarded fix: commits',
               'baseline_off_cmd': BASE_OFF, 'source_commits': json.load(open(os.path.join(V, 'tools', 'hook_commits.json'))), 'add_only': True},
     'engines': [{'name': 'lean4+correspondence', 'path': 'lean/ , harness/', 'serves_properties': sorted(CLAIMED),
                  'kind_free_text': 'Lean 4 theorems about hand-written executable models + generated IR obligations; correspondence harness drives the models and the real bct on the same inputs'}],
     'checks': checks,
-    'notes': 'See DESIGN.md. known_findings.json lists recorded defects (open) and repaired ones (fixed).',
+    'notes': 'See DESIGN.md (Part I architecture and trusted base, Part II one section per property, Part III findings and seeded changes). known_findings.json + known_findings.d/ list recorded defects (open) and repaired ones (fixed). Every property is decided at level proof, but the theorems are about models: each claim text lists the clauses that are NOT theorems and rest on the correspondence or on independent predicates only (weakest: C20 toeplitz/fractal, C18 oracle-relative spectral clauses, C05/C13 generated abstraction with a trusted translator, C06 Pearson r, C17 copy flag, C02/C07 modularity_louvain_dir, C03/C12 log transform in floats).',
     'not_applicable': na,
 }
 json.dump(m, open(os.path.join(V, 'MANIFEST.json'), 'w'), indent=1)
